@@ -2,6 +2,7 @@ package engines
 
 import (
 	"fmt"
+	"regexp"
 	"sort"
 	"strings"
 
@@ -14,6 +15,9 @@ import (
 )
 
 func init() { Registry["C18"] = c18 }
+
+// a packet byte XORed with something: "pkt:<field>[+off] ^ "
+var c18XorSrc = regexp.MustCompile(`(pkt:[^|^]+?) \^ `)
 
 var c18Opaque = []string{"update_stats", "log_violation"}
 
@@ -81,11 +85,30 @@ func c18Classify(rt cexec.Ret) c18Path {
 			} else {
 				p.valid = "no"
 			}
-		case a.Op == "==" && a.L == "pkt:iphdr.saddr" && strings.HasSuffix(a.R, ".ipv4_addr"):
-			if a.Holds {
+		case (a.Op == "==" || a.Op == "!=") && a.L == "pkt:iphdr.saddr" && strings.HasSuffix(a.R, ".ipv4_addr"):
+			if a.Holds == (a.Op == "==") {
 				p.eq = "yes"
 			} else {
 				p.eq = "no"
+			}
+		case (a.Op == "==" || a.Op == "!=") && a.RC != nil && *a.RC == 0 && strings.Contains(a.L, " ^ ") && strings.Contains(a.L, ".ipv6_addr"):
+			// branch-free comparison: the OR of the byte-wise XORs of source and bound address is tested against zero
+			terms := strings.Count(a.L, " ^ ")
+			withBound := strings.Count(a.L, ".ipv6_addr")
+			srcs := map[string]bool{}
+			for _, m := range c18XorSrc.FindAllStringSubmatch(a.L, -1) {
+				srcs[m[1]] = true
+			}
+			n := terms
+			if withBound < n {
+				n = withBound
+			}
+			if len(srcs) < n {
+				n = len(srcs)
+			}
+			v6cmp += n
+			if a.Holds == (a.Op == "!=") {
+				mismatch = true
 			}
 		case a.Op == "!=" && strings.HasSuffix(a.R, ".ipv6_addr"):
 			v6cmp++
